@@ -8,6 +8,10 @@ package kv_test
 // a server of positive weight and must not change.  Events go to the same trace format as
 // harness/c13/hash_test.go ("build" = the AddWithWeight calls made by the constructor) and are
 // validated by spec/ConsistentHashTrace.tla.
+//
+// The constructor and every Set / Get / Del run under recover(): a call that panics is logged
+// ("PANIC" in place of the holder, `pan` = operations that panicked: "new", "set", "get", "del")
+// and rejected by the contract like any other inadmissible observation.
 
 import (
 	"errors"
@@ -42,20 +46,65 @@ func (s *c13Shards) holder(key string) string {
 	return h
 }
 
+// c13Pan collects the calls of the code under test that panicked since the last emitted event.
+type c13Pan struct {
+	ops  []string
+	msgs map[string]string
+}
+
+// call runs f (one call of the code under test); ok = it returned normally.
+func (p *c13Pan) call(op string, f func() error) (err error, ok bool) {
+	defer func() {
+		if r := recover(); r != nil {
+			err, ok = nil, false
+			if p.msgs == nil {
+				p.msgs = map[string]string{}
+			}
+			if _, seen := p.msgs[op]; !seen {
+				p.ops = append(p.ops, op)
+				p.msgs[op] = fmt.Sprint(r)
+			}
+		}
+	}()
+	return f(), true
+}
+
+func (p *c13Pan) flush(ev kit.M) kit.M {
+	ops := p.ops
+	if ops == nil {
+		ops = []string{}
+	}
+	ev["pan"] = ops
+	if len(ops) > 0 {
+		ev["panmsg"] = p.msgs
+	}
+	p.ops, p.msgs = nil, nil
+	return ev
+}
+
+const c13Panic = "PANIC"
+
 type c13KV struct {
 	set func(key string) error
 	get func(key string) error
 	del func(keys ...string) error
 }
 
-func c13Round(s *c13Shards, api c13KV, keys []string) ([]string, error) {
+func c13Round(s *c13Shards, api c13KV, keys []string, pan *c13Pan) ([]string, error) {
 	out := make([]string, len(keys))
 	for i, k := range keys {
-		if err := api.set(k); err != nil {
+		err, ok := pan.call("set", func() error { return api.set(k) })
+		if !ok {
+			out[i] = c13Panic
+			continue
+		}
+		if err != nil {
 			return nil, fmt.Errorf("set %q: %v", k, err)
 		}
 		out[i] = s.holder(k)
-		if err := api.get(k); err != nil {
+		if err, ok := pan.call("get", func() error { return api.get(k) }); !ok {
+			out[i] = c13Panic
+		} else if err != nil {
 			out[i] = "?get-misses-after-set"
 		}
 	}
@@ -80,17 +129,39 @@ func runC13Cluster(c kit.Case, kind string, tr *kit.Tracer, pop int) kit.Verdict
 		mem[name] = kit.Num(w) // NewConsistentHash: 100 virtual nodes * weight / 100
 	}
 	var api c13KV
+	pan := &c13Pan{}
+	if kind != "cache" && kind != "kv" {
+		return infra(fmt.Errorf("kind %q", kind))
+	}
+	errNotFound := errors.New("not found")
+	var cc cache.Cache
+	var st kv.Store
+	if _, ok := pan.call("new", func() error {
+		if kind == "cache" {
+			cc = cache.New(conf, syncx.NewSingleFlight(), cache.NewStat("c13"), errNotFound)
+		} else {
+			st = kv.New(conf)
+		}
+		return nil
+	}); !ok {
+		// the constructor (AddWithWeight per node) panicked: nothing can be looked up
+		all := make([]string, 16)
+		for i := range all {
+			all[i] = c13Panic
+		}
+		tr.Emit(kit.M{"ev": "reset", "h": c.Index, "base": 100, "kind": kind})
+		tr.Emit(pan.flush(kit.M{"ev": "build", "mem": mem, "asg": all, "asg2": all,
+			"cnt": map[string]int{"-": 0, "n1": 0, "n2": 0, "n3": 0, "n4": 0}, "mv": []kit.M{}}))
+		return kit.Verdict{Case: c.Index, OK: true, Steps: 1}
+	}
 	switch kind {
 	case "cache":
-		errNotFound := errors.New("not found")
-		cc := cache.New(conf, syncx.NewSingleFlight(), cache.NewStat("c13"), errNotFound)
 		api = c13KV{
 			set: func(k string) error { return cc.Set(k, "v") },
 			get: func(k string) error { var v string; return cc.Get(k, &v) },
 			del: func(ks ...string) error { return cc.Del(ks...) },
 		}
 	case "kv":
-		st := kv.New(conf)
 		api = c13KV{
 			set: func(k string) error { return st.Set(k, "v") },
 			get: func(k string) error {
@@ -102,8 +173,6 @@ func runC13Cluster(c kit.Case, kind string, tr *kit.Tracer, pop int) kit.Verdict
 			},
 			del: func(ks ...string) error { _, err := st.Del(ks...); return err },
 		}
-	default:
-		return infra(fmt.Errorf("kind %q", kind))
 	}
 	var probe, popk []string
 	for i := 0; i < 16; i++ {
@@ -131,56 +200,65 @@ func runC13Cluster(c kit.Case, kind string, tr *kit.Tracer, pop int) kit.Verdict
 	tr.Emit(kit.M{"ev": "reset", "h": c.Index, "base": 100, "kind": kind})
 
 	// build: first placement; second placement after deleting every key singly
-	a1, err := c13Round(s, api, probe)
+	a1, err := c13Round(s, api, probe, pan)
 	if err != nil {
 		return infra(err)
 	}
-	p1, err := c13Round(s, api, popk)
+	p1, err := c13Round(s, api, popk, pan)
 	if err != nil {
 		return infra(err)
 	}
+	delPanicked := map[string]bool{}
 	for _, k := range probe {
-		if err := api.del(k); err != nil {
+		if err, ok := pan.call("del", func() error { return api.del(k) }); !ok {
+			delPanicked[k] = true
+		} else if err != nil {
 			return infra(fmt.Errorf("del %q: %v", k, err))
 		}
 	}
 	for i, k := range probe {
-		if s.holder(k) != "-" {
+		if delPanicked[k] {
+			a1[i] = c13Panic
+		} else if s.holder(k) != "-" {
 			a1[i] = "?still-there-after-del"
 		}
 	}
-	a2, err := c13Round(s, api, probe)
+	a2, err := c13Round(s, api, probe, pan)
 	if err != nil {
 		return infra(err)
 	}
-	tr.Emit(kit.M{"ev": "build", "mem": mem, "asg": a1, "asg2": a2, "cnt": count(p1), "mv": []kit.M{}})
+	tr.Emit(pan.flush(kit.M{"ev": "build", "mem": mem, "asg": a1, "asg2": a2, "cnt": count(p1), "mv": []kit.M{}}))
 
 	// lookup: batch delete (keys grouped by node inside the cluster), place again
-	if err := api.del(append(append([]string{}, probe...), popk...)...); err != nil {
+	err, batchOK := pan.call("del", func() error { return api.del(append(append([]string{}, probe...), popk...)...) })
+	if batchOK && err != nil {
 		return infra(fmt.Errorf("batch del: %v", err))
 	}
 	stale := false
 	for _, k := range append(append([]string{}, probe...), popk...) {
-		if s.holder(k) != "-" {
+		if batchOK && s.holder(k) != "-" {
 			stale = true
 		}
 	}
-	a3, err := c13Round(s, api, probe)
+	a3, err := c13Round(s, api, probe, pan)
 	if err != nil {
 		return infra(err)
 	}
-	p3, err := c13Round(s, api, popk)
+	p3, err := c13Round(s, api, popk, pan)
 	if err != nil {
 		return infra(err)
 	}
 	if stale {
 		a3[0] = "?still-there-after-batch-del"
 	}
+	if !batchOK {
+		a3[0] = c13Panic
+	}
 	a4 := make([]string, len(probe))
 	for i, k := range probe {
 		a4[i] = s.holder(k)
 	}
-	tr.Emit(kit.M{"ev": "lookup", "asg": a3, "asg2": a4, "cnt": count(p3), "mv": moves(p1, p3)})
+	tr.Emit(pan.flush(kit.M{"ev": "lookup", "asg": a3, "asg2": a4, "cnt": count(p3), "mv": moves(p1, p3)}))
 	return kit.Verdict{Case: c.Index, OK: true, Steps: 2}
 }
 
